@@ -383,6 +383,10 @@ def index_rule(mod, reg, uni, q, fnode, loop, extra_assume=None, timeout_ms=1000
     cands = guard_candidates(loop.test)
     body_assigned = assigned(loop.body)
     ints = int_like_names(fnode, mod) | {a.arg for a in fnode.args.args if a.annotation is not None and ast.unparse(a.annotation) == "int"}
+    if isinstance(loop.test, ast.Constant) and loop.test.value is True:
+        # `while True`: an integer local that strictly increases on every path back to the head and stays <= len(x) + 1 for a
+        # sequence x the loop does not rebind (e.g. offset = x.find(sig, offset) + 1): variant len(x) + 1 - var
+        cands = [(v_, "inc-bounded", loop.test, None) for v_ in sorted(body_assigned & ints)]
     last = ("unknown", "no usable guard conjunct", 0.0, 0)
     for (var, direction, conj, bound) in cands:
         if var not in body_assigned:
@@ -472,12 +476,28 @@ def _run_index(mod, reg, uni, fnode, loop, var, direction, ints, extra_assume, t
                             vcs.append((o.st.pc, z3.BoolVal(False), "index variable no longer an integer"))
                             continue
                         t1 = ops.int_term(v1)
-                        goal = t1 > v0 if direction == "inc" else t1 < v0
-                        vcs.append((o.st.pc, goal, ""))
+                        goal = t1 < v0 if direction in ("dec", "dec-to-zero") else t1 > v0
+                        vcs.append((o.st.pc, goal, "", t1))
     finally:
         ex.sinks.pop()
         ex.cur_fn_stack.pop()
     secs = 0.0
+    if direction == "inc-bounded":
+        # some stable length L must bound the variable after every iteration
+        if not vcs:
+            return "proved", "no path returns to the loop head", 0.0, 0
+        for key, L in sorted(ex.len_consts.items()):
+            ok = True
+            for pc, goal, note, t1 in vcs:
+                r = solve.check_vc(pc, z3.And(goal, t1 <= L + 1), timeout_ms, want_model=False, use_cvc5=False)
+                secs += r.seconds
+                if r.status != "proved":
+                    ok = False
+                    break
+            if ok:
+                return "proved", f"bounded above by len({key}) + 1", secs, len(vcs)
+        return "unknown", f"no stable length bounds `{var}` from above on every path back to the head", secs, len(vcs)
+    vcs = [v_[:3] for v_ in vcs]
     for pc, goal, note in vcs:
         r = solve.check_vc(pc, goal, timeout_ms, want_model=True, use_cvc5=False)
         secs += r.seconds
@@ -564,19 +584,156 @@ def shrink_rule(loop):
     if grows:
         return ("unknown", f"{s} may grow")
 
-    def gen(call):
-        if isinstance(call.func, ast.Attribute) and isinstance(call.func.value, ast.Name) and call.func.value.id == s and call.func.attr in ("pop", "remove"):
-            return ["shrunk"]
-        return []
-    mf_outs = back_edge_facts(loop, gen)
-    # `L[i:i+2] = [x]` / `del L[i]` / `L = L[:k] + [..] + L[k+2:]` are also shrinking; recognised syntactically
     for st_ in loop.body:
         for n in ast.walk(st_):
-            if isinstance(n, ast.Delete) and any(isinstance(t_, ast.Subscript) and isinstance(t_.value, ast.Name) and t_.value.id == s for t_ in n.targets):
-                return ("proved", f"`del {s}[...]` on the path back; variant len({s})") if _unconditional(loop.body, n) else ("unknown", "conditional delete")
-    if mf_outs and all("shrunk" in o for o in mf_outs):
-        return ("proved", f"every path back to the head removes an element of `{s}`; variant len({s})")
+            if isinstance(n, (ast.Assign, ast.AugAssign)):
+                tg = n.targets if isinstance(n, ast.Assign) else [n.target]
+                for t_ in tg:
+                    if isinstance(t_, ast.Name) and t_.id == s:
+                        return ("unknown", f"{s} is rebound in the body")
+                    if isinstance(t_, ast.Subscript) and isinstance(t_.value, ast.Name) and t_.value.id == s and isinstance(t_.slice, ast.Slice):
+                        return ("unknown", f"slice assignment to {s}")
+    outs = _shrink_paths(loop, s)
+    if outs is None:
+        return ("unknown", f"could not follow the control flow of the body for `{s}`")
+    if all(sh for (sh, _fl) in outs):
+        return ("proved", f"every path back to the head removes an element of `{s}` (del / pop / remove, no growth); variant len({s})")
     return ("unknown", f"could not show that `{s}` shrinks on every path")
+
+
+def _shrink_paths(loop, s):
+    """Path-sensitive abstract execution of the loop body: the set of (shrunk, flags) states that reach the head again.
+    shrunk: an element of `s` was removed on the path; flags: boolean locals assigned True/False literals (so that
+    `found = False; for ...: if c: del s[i]; found = True; break` followed by `if not found: del s[0]` is followed exactly).
+    Returns None when a construct is not handled."""
+    class Giveup(Exception):
+        pass
+
+    def removes(n):
+        if isinstance(n, ast.Delete):
+            return any(isinstance(t_, ast.Subscript) and isinstance(t_.value, ast.Name) and t_.value.id == s and not isinstance(t_.slice, ast.Slice) for t_ in n.targets)
+        if isinstance(n, ast.Expr) and isinstance(n.value, ast.Call):
+            c = n.value
+            return isinstance(c.func, ast.Attribute) and isinstance(c.func.value, ast.Name) and c.func.value.id == s and c.func.attr in ("pop", "remove")
+        if isinstance(n, ast.Assign) and isinstance(n.value, ast.Call):
+            c = n.value
+            return isinstance(c.func, ast.Attribute) and isinstance(c.func.value, ast.Name) and c.func.value.id == s and c.func.attr == "pop"
+        return False
+
+    def flag_test(e):
+        if isinstance(e, ast.Name):
+            return e.id, True
+        if isinstance(e, ast.UnaryOp) and isinstance(e.op, ast.Not) and isinstance(e.operand, ast.Name):
+            return e.operand.id, False
+        return None
+
+    def setflag(state, name, val):
+        sh, fl = state
+        d = dict(fl)
+        if val is None:
+            d.pop(name, None)
+        else:
+            d[name] = val
+        return (sh, tuple(sorted(d.items())))
+
+    # block(states, stmts, depth) -> (fall, brk, cont) sets of states; exits (return/raise) vanish
+    def block(states, stmts):
+        brk, cont = set(), set()
+        cur = set(states)
+        for st_ in stmts:
+            if not cur:
+                break
+            cur, b, c = stmt(cur, st_)
+            brk |= b
+            cont |= c
+        return cur, brk, cont
+
+    def stmt(states, n):
+        if isinstance(n, (ast.Return, ast.Raise)):
+            return set(), set(), set()
+        if isinstance(n, ast.Break):
+            return set(), set(states), set()
+        if isinstance(n, ast.Continue):
+            return set(), set(), set(states)
+        if removes(n):
+            out = {(True, fl) for (_sh, fl) in states}
+            for t_ in ast.walk(n):
+                if isinstance(t_, ast.Name) and isinstance(t_.ctx, ast.Store):
+                    out = {setflag(x, t_.id, None) for x in out}
+            return out, set(), set()
+        if isinstance(n, ast.Assign) and len(n.targets) == 1 and isinstance(n.targets[0], ast.Name):
+            v = n.value.value if isinstance(n.value, ast.Constant) and isinstance(n.value.value, bool) else None
+            return {setflag(x, n.targets[0].id, v) for x in states}, set(), set()
+        if isinstance(n, (ast.Assign, ast.AugAssign, ast.AnnAssign)):
+            out = set(states)
+            for t_ in ast.walk(n):
+                if isinstance(t_, ast.Name) and isinstance(t_.ctx, ast.Store):
+                    out = {setflag(x, t_.id, None) for x in out}
+            return out, set(), set()
+        if isinstance(n, ast.If):
+            ft = flag_test(n.test)
+            tin, fin = set(states), set(states)
+            if ft is not None:
+                nm, pos = ft
+                tin = {x for x in states if dict(x[1]).get(nm, pos) == pos}
+                fin = {x for x in states if dict(x[1]).get(nm, (not pos)) == (not pos)}
+            f1, b1, c1 = block(tin, n.body)
+            f2, b2, c2 = block(fin, n.orelse)
+            return f1 | f2, b1 | b2, c1 | c2
+        if isinstance(n, (ast.For, ast.While)):
+            seen = set(states)
+            frontier = set(states)
+            after = set(states) if not (isinstance(n, ast.While) and isinstance(n.test, ast.Constant) and n.test.value is True) else set()
+            exits = set()
+            while frontier:
+                if isinstance(n, ast.For):
+                    for t_ in ast.walk(n.target):
+                        if isinstance(t_, ast.Name):
+                            frontier = {setflag(x, t_.id, None) for x in frontier}
+                f, b, c = block(frontier, n.body)
+                exits |= b
+                nxt = (f | c)
+                after |= nxt
+                frontier = nxt - seen
+                seen |= nxt
+            # normal exhaustion runs the else clause; break skips it
+            fo, bo, co = block(after, n.orelse)
+            return fo | exits, bo, co
+        if isinstance(n, ast.Try):
+            # any prefix of the try body may have run when a handler starts: removal is only counted if it also
+            # happens on the handler path, so handlers start from the states *before* the try and from all body states
+            f, b, c = block(states, n.body)
+            hin = {(sh, ()) for (sh, _fl) in states}
+            hf, hb, hc = set(), set(), set()
+            for h in n.handlers:
+                a1, a2, a3 = block(hin, h.body)
+                hf |= a1; hb |= a2; hc |= a3
+            f2, b2, c2 = block(f, n.orelse)
+            allf, allb, allc = f2 | hf, b | b2 | hb, c | c2 | hc
+            if n.finalbody:
+                ff, fb, fc = block(allf, n.finalbody)
+                bb, fb2, fc2 = block(allb, n.finalbody)
+                cc, fb3, fc3 = block(allc, n.finalbody)
+                return ff, fb | fb2 | fb3 | bb, fc | fc2 | fc3 | cc
+            return allf, allb, allc
+        if isinstance(n, ast.With):
+            for it in n.items:
+                if it.optional_vars is not None:
+                    for t_ in ast.walk(it.optional_vars):
+                        if isinstance(t_, ast.Name):
+                            states = {setflag(x, t_.id, None) for x in states}
+            return block(states, n.body)
+        if isinstance(n, (ast.Expr, ast.Pass, ast.Assert, ast.Delete, ast.Import, ast.ImportFrom, ast.Global, ast.Nonlocal)):
+            return set(states), set(), set()
+        if isinstance(n, (ast.FunctionDef, ast.AsyncFunctionDef, ast.ClassDef)):
+            return set(states), set(), set()
+        raise Giveup(type(n).__name__)
+
+    try:
+        f, _b, c = block({(False, ())}, loop.body)
+    except Giveup:
+        return None
+    return f | c
 
 
 def _unconditional(body, node):
@@ -635,3 +792,56 @@ def termination_obligations(prop, repo, files, readers=(), extra=None, unproven_
                          "backends": {backend: max(nvc, 1)}, "witness": None, "reason": f"{rel}:{loop.lineno} {detail}", "loc": f"{rel}:{loop.lineno}",
                          "function": f"{rel}::{q}"})
     return obls, undecided_listed
+
+
+# ------------------------------------------------------------- for loops --
+INFINITE_ITERATORS = {"itertools.count", "itertools.cycle", "count", "cycle"}
+GROWERS = ("append", "extend", "insert", "add", "update", "setdefault", "appendleft", "extendleft")
+
+
+def for_loop_obligations(prop, repo, files):
+    """One obligation per file: every `for` statement / comprehension of the file iterates over something finite
+    that its own body does not grow.  Checked per loop:
+      (a) the iterable is not an infinite-iterator constructor (itertools.count / cycle / repeat without `times`,
+          two-argument `iter(callable, sentinel)`);
+      (b) for an iterable that is a name or attribute path, the body contains no growing call on the same path
+          (`x.append/extend/insert/add/update/setdefault`, `x += ...`) and no subscript store into it when it is
+          iterated as a mapping (`for k in d: d[new] = ...`).
+    What this leaves as an assumption (recorded in the evidence): third-party iterables (ElementTree, zipfile, xlrd, ...)
+    and own generators are finite -- the latter reduce to the `while` obligations of their bodies and to this rule."""
+    out = []
+    for rel in files:
+        mod = loader.module(rel, repo)
+        n, bad = 0, []
+        for node in ast.walk(mod.tree):
+            if not isinstance(node, (ast.For, ast.AsyncFor, ast.comprehension)):
+                continue
+            n += 1
+            it = node.iter
+            line = getattr(node, "lineno", getattr(it, "lineno", 0))
+            if isinstance(it, ast.Call):
+                d = dotted(it.func) or ""
+                if d in INFINITE_ITERATORS:
+                    bad.append(f"{rel}:{line} iterates over {d}()")
+                if d in ("itertools.repeat", "repeat") and len(it.args) < 2 and not any(k.arg == "times" for k in it.keywords):
+                    bad.append(f"{rel}:{line} iterates over repeat() without times")
+                if d == "iter" and len(it.args) == 2:
+                    bad.append(f"{rel}:{line} iterates over iter(callable, sentinel)")
+            if isinstance(node, ast.comprehension):
+                continue
+            base = dotted(it) if isinstance(it, (ast.Name, ast.Attribute)) else None
+            if isinstance(it, ast.Call) and isinstance(it.func, ast.Attribute) and it.func.attr in ("items", "keys", "values") and not it.args:
+                base = dotted(it.func.value)
+            if not base:
+                continue
+            for b in node.body:
+                for c in ast.walk(b):
+                    if isinstance(c, ast.Call) and isinstance(c.func, ast.Attribute) and c.func.attr in GROWERS and dotted(c.func.value) == base:
+                        bad.append(f"{rel}:{c.lineno} `{base}.{c.func.attr}(...)` inside `for ... in {ast.unparse(it)}` (line {line})")
+                    if isinstance(c, ast.AugAssign) and dotted(c.target) == base:
+                        bad.append(f"{rel}:{c.lineno} `{base} += ...` inside `for ... in {ast.unparse(it)}` (line {line})")
+        out.append({"id": f"{prop}/{rel.split('/')[-1]}::*/decreases#for-loops-finite", "kind": "decreases",
+                    "status": "proved" if not bad else "unknown", "vcs": max(n, 1), "seconds": 0.0, "backends": {"dataflow": max(n, 1)},
+                    "witness": None, "reason": f"{rel}: {n} for loops / comprehensions; " + ("; ".join(bad) if bad else "none iterates an infinite constructor or grows its own iterable"),
+                    "loc": rel, "function": f"{rel}::*"})
+    return out
